@@ -200,6 +200,14 @@ func genC19(h *H) {
 	}
 	// loading keys: all lengths 0..40, boundary contents
 	for l := 0; l <= 40; l++ {
+		// leading zero bytes in front of a full-width tail (a value-preserving strip would move the 32-byte window)
+		for z := 1; z <= 3 && z < l; z++ {
+			b := h.randBytes(l)
+			for i := 0; i < z; i++ {
+				b[i] = 0
+			}
+			h.do("frombytes-leading-zero", "privkey_frombytes", hx(b))
+		}
 		h.do("frombytes-len", "privkey_frombytes", hx(h.randBytes(l)))
 		ff := make([]byte, l)
 		for i := range ff {
